@@ -144,6 +144,7 @@ func stdProfile(t *tape.Tape) gen.Profile {
 	p.ChainW = []int{0, 2, 4, 8}[t.Intn(4)]
 	p.LitW = []int{0, 2, 4, 8}[t.Intn(4)]
 	p.TopDefer = t.Chance(1, 2)
+	p.Natural = t.Chance(1, 3)
 	return p
 }
 
@@ -156,6 +157,7 @@ func deferProfile(t *tape.Tape) gen.Profile {
 	p.ChainW = []int{0, 1, 2}[t.Intn(3)]
 	p.LitW = []int{0, 0, 1}[t.Intn(3)]
 	p.TopDefer = true
+	p.Natural = t.Chance(1, 4)
 	return p
 }
 
